@@ -341,8 +341,18 @@ func Equal(p1, p2 Ptr) (bool, error) {
 		if l1.Len() != l2.Len() {
 			return false, nil
 		}
-		if l1.flags&isCompositeList == 0 && l2.flags&isCompositeList == 0 && l1.size != l2.size {
+		if l1.flags&isCompositeList == 0 && l2.flags&isCompositeList == 0 && (l1.size != l2.size || l1.flags&isBitList != l2.flags&isBitList) {
 			return false, nil
+		}
+		if l1.flags&isBitList != 0 && l2.flags&isBitList != 0 {
+			// Bit lists have a zero element size: compare them bit by bit.
+			b1, b2 := BitList{l1}, BitList{l2}
+			for i := 0; i < l1.Len(); i++ {
+				if b1.At(i) != b2.At(i) {
+					return false, nil
+				}
+			}
+			return true, nil
 		}
 		if l1.size.PointerCount == 0 && l2.size.PointerCount == 0 && l1.size.DataSize == l2.size.DataSize {
 			// Optimization: pure data lists can be compared bytewise.
